@@ -79,6 +79,9 @@ REWRITES = {
     "box_as_ref": ("re", r"\bboxed\.as_ref\(\)", r"&**boxed", "Box::as_ref on &Box<T> replaced by its std body `&**self` (no vstd spec; generic over the allocator)"),
     "self_name_clone_to_callee": ("re", r"self\.name\.value\.clone\(\)", r"string_clone(&callee.value)", "captured field path `self.name` of the lifted loop body becomes the parameter `callee` (R6); String::clone -> shim"),
     "ref_ne": ("re", r"\barg_type != param_type\b", r"!datatype_eq(arg_type, param_type)", "`!=` on two `&DataType` (PartialEq for references) written as the derived comparison it resolves to"),
+    "eta_expand_variant_ctor": ("re", r"\.to_error\((\w+)::(\w+)\)", r".to_error(|s: String| -> (r: \1) ensures r == \1::\2(s) { \1::\2(s) })", "a tuple-variant constructor passed as a function value is written as the closure it denotes (eta expansion), with its obvious postcondition"),
+    "string_clone_self_value": ("re", r"self\.value\.clone\(\)", r"string_clone(&self.value)", "String::clone -> shim (`r@ == s@`)"),
+    "string_clone_self_name_value": ("re", r"self\.name\.value\.clone\(\)", r"string_clone(&self.name.value)", "String::clone -> shim (`r@ == s@`)"),
     "drop_const_fn": ("re", r"\bconst fn\b", "fn", "const fn that calls non-const shim"),
 }
 
